@@ -46,6 +46,11 @@ def build(cfg):
     L = cfg["L"]
     contracts = [A, B][:cfg["ncon"]]
     bars = bar_events(G, contracts)
+    k = cfg.get("dropbar")
+    if k:
+        # grid point k carries no bar: its quotes are stamped one second EARLIER, so the last event of that step is
+        # stamped before the timestep (the environment's notifications must carry the event's time, not the timestep's)
+        bars = [EventNBBO(e.time - timedelta(seconds=1), e.contract, e.bid_price, e.ask_price) if e.time == G[k] else e for e in bars]
     pos = positions(G, L)
     extras = []
     for j, (pi, kind) in enumerate(cfg["extras"]):
@@ -62,7 +67,8 @@ def build(cfg):
     half = (G[1] - G[0]) / 3
     fold = {"whole": (G[0], G[-1]), "late": (G[2], G[-1]), "middle": (G[1], G[2]),
             # fold boundaries that fall strictly between two timesteps
-            "endmid": (G[0], G[2] + half), "startmid": (G[0] + half, G[-1]), "bothmid": (G[0] + half, G[2] + half)}[cfg["fold"]]
+            "endmid": (G[0], G[2] + half), "startmid": (G[0] + half, G[-1]), "bothmid": (G[0] + half, G[2] + half),
+            "single": (G[1], G[1])}[cfg["fold"]]
     markov = cfg["hist"] == "markov"
     warm = {"all": None, "markov": None, "warm1": G[1] - G[0], "warm2": G[2] - G[0]}[cfg["hist"]]
     timesteps = list(G)
@@ -151,6 +157,23 @@ def check_episode(env, sink, sink2, lo, lo2, plan, idmap, kinds, quotes, trace, 
         elif last is not None and ent[2] != last:
             msgs.append("%s notification stamped %s but the latest market event processed is %s" % (ent[0], ent[2], last))
             break
+    # new-date notifications: exactly one between two consecutive market events of different dates, none otherwise
+    prev_e = None
+    pending_nd = 0
+    for ent in log:
+        if ent[0] == "NewDate":
+            pending_nd += 1
+        elif ent[0] == "E":
+            if prev_e is not None:
+                changed = ent[2].date() != prev_e[2].date()
+                if changed and pending_nd != 1:
+                    msgs.append("%d new-date notifications between the events stamped %s and %s" % (pending_nd, prev_e[2], ent[2]))
+                    break
+                if not changed and pending_nd:
+                    msgs.append("new-date notification between two events of the same date (%s, %s)" % (prev_e[2], ent[2]))
+                    break
+            pending_nd = 0
+            prev_e = ent
     # done notification
     kinds_seq = [e[0] for e in log if e[0] != "E" and e[0] != "NewDate"]
     if steps_taken == len(plan.per_step):
@@ -263,9 +286,9 @@ def run_config(cfg):
     return msgs, hash(tuple(outcome))
 
 
-CROSSED = [("L", [0, 30]), ("fold", ["whole", "late", "middle", "endmid", "startmid", "bothmid"]), ("hist", ["all", "markov", "warm1", "warm2"])]
+CROSSED = [("L", [0, 30]), ("fold", ["whole", "late", "middle", "endmid", "startmid", "bothmid", "single"]), ("hist", ["all", "markov", "warm1", "warm2"])]
 DEVIATE = [("grid", ["min", "day", "mixed", "min12"]), ("ncon", [2, 1]), ("eplen", [None, 1, 2]), ("start", [0, 1, 2]),
-           ("unsorted", [False, True]), ("extras_first", [False, True]), ("swap_extras", [False, True])]
+           ("unsorted", [False, True]), ("extras_first", [False, True]), ("swap_extras", [False, True]), ("dropbar", [0, 1, 2])]
 
 
 def configs(tier):
